@@ -1,6 +1,7 @@
 package main
 
 import (
+	"bytes"
 	"fmt"
 	"regexp"
 	"strings"
@@ -57,6 +58,7 @@ type c19Case struct {
 	Reply   bool
 	Code    string // reply status code (default 200)
 	Var     int    // variant of the fingerprinted strings (Via branch / Call-ID / From tag with an all-zero class signature)
+	Offs    int    `json:",omitempty"` // start offset of the request in the buffer (behind an earlier message of the stream)
 	CSeqM   string `json:",omitempty"` // method token written in the CSeq value when it is not the request method (a value of a header, not the method)
 	PrevCut int    `json:",omitempty"` // > 0: the same object (and header array) first got that many bytes of c19PrevMsg, was abandoned and reset
 	PrevOp  string `json:",omitempty"` // "Reset" or "Init" (with the same header array)
@@ -151,10 +153,18 @@ func c19Outcome(k string) {
 var sigStrRe = regexp.MustCompile(`^$|^[0-9a-f]{1,9}I[0-9a-f]{6}F[0-9a-f]{4}V[0-9a-f]{4}$`)
 
 func parseForSig(msg []byte, capn, cut int) (*sipsp.PSIPMsg, sipsp.ErrorHdr) {
-	return parseForSigPrev(msg, capn, cut, 0, "")
+	return parseForSigPrev(msg, capn, cut, 0, "", 0)
 }
 
-func parseForSigPrev(msg []byte, capn, cut, prevCut int, prevOp string) (*sipsp.PSIPMsg, sipsp.ErrorHdr) {
+func parseForSigPrev(msg []byte, capn, cut, prevCut int, prevOp string, start int) (*sipsp.PSIPMsg, sipsp.ErrorHdr) {
+	if start > 0 {
+		// the request lies behind earlier stream data (copies of the previous message)
+		pre := bytes.Repeat(c19PrevMsg, start/len(c19PrevMsg)+1)[:start]
+		msg = append(append([]byte(nil), pre...), msg...)
+		if cut > 0 {
+			cut += start
+		}
+	}
 	m := new(sipsp.PSIPMsg)
 	hdrs := mkHdrs(capn)
 	m.Init(nil, hdrs, nil)
@@ -166,9 +176,9 @@ func parseForSigPrev(msg []byte, capn, cut, prevCut int, prevOp string) (*sipsp.
 			m.Reset()
 		}
 	}
-	offs := 0
+	offs := start
 	if cut > 0 && cut < len(msg) {
-		n, e := sipsp.ParseSIPMsg(msg[:cut], 0, m, sipsp.SIPMsgSkipBodyF)
+		n, e := sipsp.ParseSIPMsg(msg[:cut], start, m, sipsp.SIPMsgSkipBodyF)
 		if e != sipsp.ErrHdrMoreBytes {
 			return m, e
 		}
@@ -190,7 +200,7 @@ func evalC19(cs *c19Case) (vs []*Violation) {
 	if nh == 0 {
 		return // a message without any header is rejected by the parser (empty header block): nothing to sign
 	}
-	m, e := parseForSigPrev(msg, cs.Cap, cs.Cut, cs.PrevCut, cs.PrevOp)
+	m, e := parseForSigPrev(msg, cs.Cap, cs.Cut, cs.PrevCut, cs.PrevOp, cs.Offs)
 	if e != 0 {
 		add("generated-message-parses", errName(e), fmt.Sprintf("verdict %v", e))
 		return
@@ -257,7 +267,7 @@ func evalC19(cs *c19Case) (vs []*Violation) {
 	}
 	// metamorphic: equal to the base variant (no fillers, no repetition, ample capacity, one shot)
 	base := *cs
-	base.Fillers, base.Repeat, base.Cap, base.Cut, base.PrevCut, base.CSeqM = nil, -1, 40, -1, 0, ""
+	base.Fillers, base.Repeat, base.Cap, base.Cut, base.PrevCut, base.CSeqM, base.Offs = nil, -1, 40, -1, 0, "", 0
 	noContact := false
 	if cs.Method != "INVITE" {
 		// in a non-INVITE request Contact is one of the "other" headers: the base variant has none
@@ -280,6 +290,8 @@ func evalC19(cs *c19Case) (vs []*Violation) {
 	if bse == sipsp.ErrHdrOk && bsig != sig {
 		cl := ""
 		switch {
+		case cs.Offs > 0:
+			cl = "start-offset"
 		case cs.CSeqM != "":
 			cl = "cseq-value-names-another-method"
 		case noContact && cs.PrevCut == 0 && cs.Repeat < 0 && len(cs.Fillers) == 0 && cs.Cut < 0:
@@ -435,6 +447,14 @@ func checkC19(r *Run) {
 						v2.Fillers[g] += 100
 						v2.Fillers[(g+1)%(len(ord)+1)] = 1 + (g+3)%len(fillerLines)
 						run(c, &v2)
+					}
+					// the request behind earlier stream data, at several start offsets (one-shot and cut in two)
+					for _, k := range []int{1, 2, 4, 133, 266, 4000} {
+						v := base
+						v.Offs = k
+						run(c, &v)
+						v.Cut = 30 + k%7
+						run(c, &v)
 					}
 					// the CSeq value names another method (known or not): a header value, the method is the request line's
 					for _, om := range []string{"OPTIONS", "INVITE", "REGISTER", "FOO"} {
